@@ -838,7 +838,8 @@ class VInterp(sym.Interp):
                 return sp.Integer(max(int(a) - int(b), 0)) if name == "saturating_sub" else sp.Integer(abs(int(a) - int(b)))
             return sp.Max(a - b, 0) if name == "saturating_sub" else sp.Abs(a - b)
         if name in ("checked_sub", "checked_add", "checked_mul", "checked_div", "checked_rem", "wrapping_add", "wrapping_sub", "saturating_add",
-                    "overflowing_sub", "rem_euclid", "div_euclid", "trailing_zeros", "leading_zeros", "count_ones", "is_power_of_two", "next_power_of_two", "ilog2") \
+                    "overflowing_sub", "rem_euclid", "div_euclid", "trailing_zeros", "leading_zeros", "count_ones", "is_power_of_two", "next_power_of_two", "ilog2",
+                    "unsigned_abs", "abs", "signum", "is_positive", "is_negative") \
                 and ("core::num" in (n.get("def") or "") or "std::num" in (n.get("def") or "")):
             a = self.num(rv, n)
             args_ = [self.num(self.ev(x), n) for x in n["args"]]
@@ -848,6 +849,12 @@ class VInterp(sym.Interp):
             bs = [int(x) for x in args_]
             unsigned = (n["recv"].get("ty") or "").lstrip("&").startswith("u")
             some, none = (lambda x: sym.Variant("Some", [sp.Integer(x)])), sym.Variant("None")
+            if name in ("unsigned_abs", "abs"):
+                return sp.Integer(abs(a))
+            if name == "signum":
+                return sp.Integer((a > 0) - (a < 0))
+            if name in ("is_positive", "is_negative"):
+                return sp.true if (a > 0) == (name == "is_positive") and a != 0 else sp.false
             if name == "checked_sub":
                 return none if (unsigned and a - bs[0] < 0) else some(a - bs[0])
             if name == "checked_add":
@@ -1045,8 +1052,11 @@ class VInterp(sym.Interp):
         if fp.get("k") == "Path" and (fp.get("dk", "").startswith(("Fn", "AssocFn", "Ctor"))):
             return sym.FnVal(fp)
         v = self.ev(fn)
-        if isinstance(v, (sym.ClosureVal, sym.FnVal)):
+        if isinstance(v, (sym.ClosureVal, sym.FnVal, sym.UserCallable)):
             return v
+        ty = (fp.get("ty") or "").replace("&mut ", "").replace("&", "").strip()
+        if fp.get("k") in ("Local", "Field") and (ty.startswith(("fn(", "impl Fn", "for<", "dyn Fn")) or (len(ty) <= 3 and ty[:1].isupper()) or "closure@" in ty):
+            return sym.UserCallable(self.norm_place(place(fp)) or fp.get("name"))     # the user's function handed on by value
         raise sym.Unsupported(n, "callable argument %s" % pp(fn)[:40])
 
     def apply_fn(self, fv, args, n):
@@ -1094,10 +1104,8 @@ class VInterp(sym.Interp):
                     return LazyIter([self.deref(x) for x in items])
                 if fp["def"] in self.F.by_path and len(self.F.by_path[fp["def"]]) == 1:
                     return LazyIter([self.inline_fn(self.F.by_path[fp["def"]][0], [self.deref(x)], n) for x in items])
-            v_ = self.ev(fn)
-            if isinstance(v_, sym.ClosureVal):
-                return LazyIter([self.apply_closure(v_, [x], n) for x in items])
-            raise sym.Unsupported(n, "map with %s" % pp(fn)[:40])
+            v_ = self._closure_arg(n)
+            return LazyIter([self.apply_closure(v_, [self.deref(x)], n) for x in items])
         if name == "filter":
             cvf = self._closure_arg(n)
             out = []
